@@ -39,6 +39,9 @@ var c02Facts = []string{
 	// one string under two properties: overwriting this fact by {"j":"v"} (or the
 	// reverse) changes one property and keeps the other, with the same term in both
 	`{"k":"v","j":"v"}`,
+	// a string the JSON encoder escapes (<, &, quotes, a control character): the
+	// stored bytes do not contain it verbatim
+	`{"k":"a<b & \"c\"\u0001"}`,
 }
 
 var c02Patterns = []string{
@@ -64,6 +67,7 @@ var c02Patterns = []string{
 	`{"?p":"v"}`,
 	`{"?p":"?q"}`,
 	`{}`,
+	`{"k":"a<b & \"c\"\u0001"}`,
 }
 
 var longString = strings.Repeat("x", 1100)
